@@ -196,6 +196,15 @@ def shrink(prop, case, still_fails, budget=400, seconds=90):
     return cur
 
 
+def _clip(obj, limit=20000):
+    """a sample for the evidence file: as it is when small, else its JSON text cut to `limit` characters"""
+    try:
+        t = json.dumps(obj, default=str, ensure_ascii=False)
+    except Exception:  # noqa: BLE001
+        t = repr(obj)
+    return obj if len(t) <= limit else {"clipped_json": t[:limit], "full_length": len(t)}
+
+
 def write_replay(pid, name, obj):
     d = os.environ.get("VERIF_REPLAY_DIR") or os.path.join(VERIF, "replays")
     os.makedirs(d, exist_ok=True)
@@ -480,7 +489,7 @@ def main(argv):
     samples = []
     for idx in sorted(set([0, len(cases) // 3, (2 * len(cases)) // 3, len(cases) - 1])):
         if 0 <= idx < len(cases):
-            samples.append({"stream": streams[idx], "case": cases[idx], "impl_out": impl_outs[idx]})
+            samples.append({"stream": streams[idx], "case": _clip(cases[idx]), "impl_out": _clip(impl_outs[idx])})
     for t in proof["theorems"][:3]:
         samples.append({"obligation": t["theorem"], "statement": t["statement"], "axioms": t["axioms"]})
     ev = {
